@@ -568,6 +568,23 @@ theorem step_shape (h : Heap) (op : Op) : Shape h op (step h op).1 (step h op).2
         · exact .fresh _ _ rfl rfl
       · exact .same _ (by simp)
     · exact .same _ (by simp)
+  | scalar o a x =>
+    simp only [step]
+    split
+    · exact .same _ (by simp)
+    · split
+      · split
+        · exact .same _ (by simp)
+        · exact .fresh _ _ rfl rfl
+      · exact .same _ (by simp)
+  | batch mean rs w =>
+    simp only [step]
+    split
+    · exact .same _ (by simp)
+    · split
+      · exact .same _ (by simp)
+      · exact .same _ (by simp)
+      · exact .fresh _ _ rfl rfl
   | setProp r k v =>
     simp only [step]
     split
@@ -1173,7 +1190,7 @@ theorem step_fold_new_eq {h : Heap} {src bits method : Nat} {linked : Bool} {cm 
 
 /-- the operations that always build a new object -/
 def builds : Op → Bool
-  | .new .. | .fromFp .. | .setOp .. | .addSub .. => true
+  | .new .. | .fromFp .. | .setOp .. | .addSub .. | .scalar .. | .batch .. => true
   | _ => false
 
 theorem Shape.builds_ref {h h' : Heap} {op : Op} {a : Ans} (sh : Shape h op h' a) (hb : builds op = true)
